@@ -37,6 +37,12 @@ class TolerantTap(FullTap):
             return cmd, m
 
 
+def limbs(v):
+    """32-bit value as [low 16 bits, high 16 bits] (TLC integers are 32-bit signed)"""
+    v &= 0xFFFFFFFF
+    return [v & 0xFFFF, v >> 16]
+
+
 def raw_message(t, payload=b""):
     m = Message()
     m.add_byte(bytes([t]))
@@ -154,7 +160,9 @@ class Probe:
         reply = []
         for (tt, sq, raw) in ap.tap_in_full[n_ain:]:
             arg = struct.unpack(">I", raw[0:4])[0] if len(raw) >= 4 else 0     # Message payload excludes the type byte
-            reply = [tt, arg if tt == MSG_UNIMPLEMENTED else 0]
+            if tt == MSG_UNIMPLEMENTED and len(raw) != 4:
+                arg = -1 if len(raw) < 4 else arg ^ 0x5A5A5A5A        # body is not exactly one uint32: cannot equal seq
+            reply = [tt] + (limbs(arg) if tt == MSG_UNIMPLEMENTED else [0, 0])
             break
         cbs = [c[0] for c in self.server.cb[n_cb:]]
         active = bool(v.is_active())
@@ -163,7 +171,8 @@ class Probe:
             cont = self.echo()
         data_after = (len(self.sch.in_buffer) if self.sch else 0) + (len(self.ch.in_buffer) if self.ch else 0)
         ev = dict(pre)
-        ev.update({"t": t, "seq": seq if seq is not None else -1, "reply": reply, "active": active,
+        ev.update({"t": t, "seq": limbs(seq)[0] if seq is not None else -1, "seq_hi": limbs(seq)[1] if seq is not None else 0,
+                   "in_kex": False, "reply": reply, "active": active,
                    "conn_cb": any(conn_callback(c) for c in cbs), "cbs": cbs,
                    "nchans": len(v._channels.values()) if self.state != "authed" else 0,
                    "accepts": len(v.server_accepts) if self.state != "authed" else 0,
@@ -171,10 +180,19 @@ class Probe:
                    "continues": bool(cont) if cont is not None else active, "plen": len(payload)})
         return ev
 
-    def rekey_window(self, types, payload=b""):
+    def set_seqno(self, value):
+        """put the next sequence number of the attacker -> victim direction at `value` on an idle connection (both
+        ends' counters, because the MAC covers the sequence number)"""
+        self.sync()
+        self.attacker.packetizer._Packetizer__sequence_number_out = value & 0xFFFFFFFF
+        self.victim.packetizer._Packetizer__sequence_number_in = value & 0xFFFFFFFF
+
+    def rekey_window(self, probes, payload=b""):
         """the victim starts a re-exchange; while only ITS KEXINIT is out (the peer has not seen it yet: the
-        victim's output is held in the link) the peer sends the given unhandled types. Returns one event per
-        type, in_kex = True."""
+        victim's output is held in the link) the peer sends the given messages. probes: list of types or of
+        (type, payload). Returns one event per probe, in_kex = True."""
+        probes = [(p, payload) if isinstance(p, int) else p for p in probes]
+        types = [t for t, _ in probes]
         v, a = self.victim, self.attacker
         vp, ap = v.packetizer, a.packetizer
         link = self.s.link
@@ -182,6 +200,7 @@ class Probe:
         self.sync()
         ap.swallow_unimplemented = True
         n_in, n_ain, n_out = len(vp.tap_in), len(ap.tap_in_full), len(vp.tap_out)
+        n_cb = len(self.server.cb)
         pre = {"authed": bool(v.is_authenticated()), "authHandler": v.auth_handler is not None}
         link.hold(side_v)
         done = {}
@@ -199,8 +218,8 @@ class Probe:
             time.sleep(0.001)
         in_kex = bool(v.in_kex)
         live = [self.live_handled(t) for t in types]
-        for t in types:
-            a._send_message(raw_message(t, payload))
+        for t, pl in probes:
+            a._send_message(raw_message(t, pl))
         mk = Message()
         mk.add_byte(bytes([MSG_IGNORE]))
         mk.add_string(MARK)
@@ -213,28 +232,41 @@ class Probe:
         link.release(side_v)
         th.join(6.0)
         self.sync()
-        replies = [struct.unpack(">I", raw[0:4])[0] for (tt, sq, raw) in ap.tap_in_full[n_ain:]
-                   if tt == MSG_UNIMPLEMENTED and len(raw) >= 4]
+        # replies by type, in arrival order (kex traffic ignored)
+        by_type = {}
+        for (tt, sq, raw) in ap.tap_in_full[n_ain:]:
+            if tt in (MSG_UNIMPLEMENTED, 82, 92):
+                arg = struct.unpack(">I", raw[0:4])[0] if len(raw) >= 4 else 0
+                if tt == MSG_UNIMPLEMENTED and len(raw) != 4:
+                    arg = -1 if len(raw) < 4 else arg ^ 0x5A5A5A5A
+                by_type.setdefault(tt, []).append(limbs(arg) if tt == MSG_UNIMPLEMENTED else [0, 0])
         active = bool(v.is_active())
-        cont = self.echo() if active and self.ch is not None else False
+        cont = self.echo() if active and self.ch is not None else (active and bool(done.get("ok")))
         ap.swallow_unimplemented = False
+        cbs = [c[0] for c in self.server.cb[n_cb:]]
+        preauth = self.state != "authed"
         evs = []
-        # the k-th UNIMPLEMENTED reply is attributed to the k-th probe that the spec expects to be answered
-        ri = 0
+        used = {}
         for i, t in enumerate(types):
             reply = []
-            if t != MSG_UNIMPLEMENTED and not live[i]:
-                if ri < len(replies):
-                    reply = [MSG_UNIMPLEMENTED, replies[ri]]
-                ri += 1
+            want = 82 if t == MSG_GLOBAL_REQUEST else 92 if t == MSG_CHANNEL_OPEN else (MSG_UNIMPLEMENTED if (t != MSG_UNIMPLEMENTED and not live[i]) else None)
+            if want is not None:
+                k = used.get(want, 0)
+                used[want] = k + 1
+                lst = by_type.get(want, [])
+                if k < len(lst):
+                    reply = [want] + lst[k]
+            sq = seqs[i] if i < len(seqs) else None
             ev = dict(pre)
-            ev.update({"t": t, "seq": seqs[i] if i < len(seqs) else -1, "chan": "na", "live_handled": live[i],
-                       "reply": reply, "active": active, "conn_cb": False, "cbs": [], "nchans": 0, "accepts": 0,
-                       "delivered": False, "continues": bool(cont) and bool(done.get("ok")), "plen": len(payload),
+            ev.update({"t": t, "seq": limbs(sq)[0] if sq is not None else -1, "seq_hi": limbs(sq)[1] if sq is not None else 0,
+                       "chan": self.chan_class(t, probes[i][1]), "live_handled": live[i],
+                       "reply": reply, "active": active,
+                       "conn_cb": any(conn_callback(c) for c in cbs) if preauth else False, "cbs": cbs if preauth else [],
+                       "nchans": len(v._channels.values()) if preauth else 0,
+                       "accepts": len(v.server_accepts) if preauth else 0,
+                       "delivered": False, "continues": bool(cont) and bool(done.get("ok")), "plen": len(probes[i][1]),
                        "in_kex": in_kex})
             evs.append(ev)
-        if ri < len(replies) and evs:
-            evs[-1]["extra_unimplemented"] = len(replies) - ri
         return evs
 
     def echo(self):
